@@ -244,8 +244,8 @@ class Heap:
 
 # ============================================================================ argument kinds
 def _variant_array(a, variant):
-    if variant == "fresh" or a.dtype.kind == "O":
-        return a.copy()
+    if variant in ("fresh", "readonly") or a.dtype.kind == "O":
+        return a.copy()           # "readonly": the writeable flag is cleared by run_config once the in-place region is known
     if variant == "transposed":
         if a.ndim >= 2:
             return np.ascontiguousarray(a.T).T          # F-ordered view of a C-ordered owner
@@ -263,6 +263,27 @@ def _variant_array(a, variant):
     raise KeyError(variant)
 
 
+WRITE_LOG = []       # write attempts on protected lists recorded by RecList (kind "readonly")
+
+
+class RecList(list):
+    """a list that records every mutator call (the byte snapshot cannot see a write of identical values)"""
+    def _rec(self, what):
+        WRITE_LOG.append(what)
+    def __setitem__(self, *a): self._rec("__setitem__"); return list.__setitem__(self, *a)
+    def __delitem__(self, *a): self._rec("__delitem__"); return list.__delitem__(self, *a)
+    def __iadd__(self, o): self._rec("__iadd__"); return list.__iadd__(self, o)
+    def __imul__(self, o): self._rec("__imul__"); return list.__imul__(self, o)
+    def append(self, *a): self._rec("append"); return list.append(self, *a)
+    def extend(self, *a): self._rec("extend"); return list.extend(self, *a)
+    def insert(self, *a): self._rec("insert"); return list.insert(self, *a)
+    def pop(self, *a): self._rec("pop"); return list.pop(self, *a)
+    def remove(self, *a): self._rec("remove"); return list.remove(self, *a)
+    def clear(self): self._rec("clear"); return list.clear(self)
+    def sort(self, *a, **k): self._rec("sort"); return list.sort(self, *a, **k)
+    def reverse(self): self._rec("reverse"); return list.reverse(self)
+
+
 def transform(x, variant, memo=None):
     """rebuild the argument with every array replaced by its `variant` (aliasing between arguments preserved)"""
     memo = {} if memo is None else memo
@@ -272,6 +293,8 @@ def transform(x, variant, memo=None):
         r = _variant_array(x, variant)
     elif isinstance(x, list):
         r = [transform(i, variant, memo) for i in x]
+        if variant == "readonly":
+            r = RecList(r)
     elif isinstance(x, tuple):
         r = tuple(transform(i, variant, memo) for i in x)
     elif isinstance(x, dict):
@@ -1296,6 +1319,9 @@ class Extractor:
         if last in LISTCOPY_FUNCS and len(name) == 1 and node.args:
             y = self.base_var(sc, node.args[0], out)
             out.append(prim("ListCopy", t, y, NMODES)); return seqn(*out)
+        if len(name) == 2 and name[0] in WRAPPERS and node.args:      # alternative constructors (Parafac2Tensor.from_CPTensor): may wrap / return the argument
+            y = self.base_var(sc, node.args[0], out)
+            out.append(("choice", prim("Rebind", t, y), prim("ListCopy", t, y, 3))); return seqn(*out)
         if last in WRAPPERS and node.args:
             a = node.args[0]
             if isinstance(a, (ast.Tuple, ast.List)):
@@ -1626,8 +1652,9 @@ def slice_term(root):
             walk(n[2], n[5])
     walk(root, 0)
     R = set()
+    soft = lambda c: c[-1] == "soft"
     for sc, c in prims:
-        if c[0] in WRITES:
+        if c[0] in WRITES and not soft(c):
             for i in WRITES[c[0]]:
                 R.add((sc, c[1 + i]))
     changed = True
@@ -1635,7 +1662,10 @@ def slice_term(root):
         changed = False
         n0 = len(R)
         for sc, c in prims:
-            if c[0] == "ListNew":
+            if c[0] in WRITES and soft(c):
+                if (sc, c[1]) in R:
+                    R.add((sc, c[3] if c[0] == "ListSet" else c[2]))
+            elif c[0] == "ListNew":
                 if (sc, c[1]) in R:
                     R.update((sc, y) for y in c[2])
             elif c[0] in SOURCES and (sc, c[1]) in R:
@@ -1657,7 +1687,7 @@ def slice_term(root):
             return memo[key]
         if n[0] == "prim":
             c = n[1]
-            r = n if (c[0] in WRITES or (sc, c[1]) in R) else SKIP
+            r = n if ((c[0] in WRITES and not soft(c)) or (sc, c[1]) in R) else SKIP
         elif n[0] == "seq":
             r = seqn(*[rebuild(m, sc) for m in n[1]])
         elif n[0] == "choice":
@@ -1679,14 +1709,16 @@ ALLOCATING = {"Alloc", "Copy", "ListNew", "ListCopy"}
 
 
 def assigned_vars(n, acc=None, seen=None):
+    """variables assigned by a command that is NOT an allocation (self-rebinds `x = f(x)` returning x are no assignments)"""
     acc = set() if acc is None else acc
     seen = set() if seen is None else seen
     if id(n) in seen:
         return acc
     seen.add(id(n))
     if n[0] == "prim":
-        if n[1][0] in ALLOCATING or n[1][0] in SOURCES:
-            acc.add(n[1][1])
+        c = n[1]
+        if c[0] in SOURCES and c[0] not in ("Copy", "Alloc") and not (c[0] == "Rebind" and c[1] == c[2]):
+            acc.add(c[1])
     elif n[0] == "seq":
         for m in n[1]:
             assigned_vars(m, acc, seen)
@@ -1700,7 +1732,8 @@ def assigned_vars(n, acc=None, seen=None):
 
 
 def peephole(root, null0):
-    """drop InplaceOp / WriteInto through a variable that is DEFINITELY bound to an object allocated by this run (or to None)
+    """(loop invariant: a variable that is allocated at loop entry and only re-assigned by allocations in the body stays allocated)
+    drop InplaceOp / WriteInto through a variable that is DEFINITELY bound to an object allocated by this run (or to None)
     on every path reaching the statement (dominating allocation, no intervening rebinding): such a write is accepted by
     `safe` whatever the rest of the state is, so removing it changes no verdict; it removes most data-dependent choices."""
     memo = {}
@@ -1713,6 +1746,12 @@ def peephole(root, null0):
             c = n[1]; k = c[0]
             if k in ALLOCATING:
                 r = (n, F | {c[1]})
+            elif k == "Rebind" and c[1] == c[2]:
+                r = (SKIP, F)
+            elif k in ("ListSet", "ListAppend") and c[1] in F and len(c) == (4 if k == "ListSet" else 3):
+                r = (("prim", c + ("soft",)), F)     # a store through a run-allocated object cannot be refused: kept only if the cell is read
+            elif k in ("ListRemove", "ListPop") and c[1] in F:
+                r = (SKIP, F)
             elif k in ("View", "Rebind"):
                 r = (n, (F | {c[1]}) if c[2] in F else (F - {c[1]}))
             elif k == "ListGet":
@@ -1936,9 +1975,12 @@ def static_cases(repo, cap=STATIC_CAP):
 
 
 # ============================================================================ running one configuration
-QUICK_VARIANTS = ["fresh", "transposed", "sliced"]
+QUICK_VARIANTS = ["fresh", "transposed", "sliced", "readonly"]
 HEAVY = {"nn_parafac_hals_init_exact_nnmodes"}      # > 1 s CPU per call (exact HALS: 50000 inner iterations): one kind in the quick tier
-ALL_VARIANTS = ["fresh", "transposed", "sliced", "strided"]
+ALL_VARIANTS = ["fresh", "transposed", "sliced", "strided", "readonly"]
+# "readonly": protected arrays have writeable=False and protected lists record mutator calls, so that a write of IDENTICAL
+# values (invisible to the byte snapshot) surfaces as an exception / a logged call: a write attempt through a protected
+# argument contradicts the model (no write command targets a caller-owned object); the harness then searches a failing input
 
 
 def run_config(name, variant, dtype, seed):
@@ -1950,8 +1992,24 @@ def run_config(name, variant, dtype, seed):
         if name not in E:
             return None
         spec = E[name]()
-    args = transform(tuple(spec["args"]), variant)
+    if variant == "readonly":     # documented in-place arguments stay ordinary writable objects
+        memo = {}
+        args = tuple(transform(a, "fresh" if i in spec["inplace"] else "readonly", memo) for i, a in enumerate(spec["args"]))
+    else:
+        args = transform(tuple(spec["args"]), variant)
     heap = Heap(args)
+    del WRITE_LOG[:]
+    if variant == "readonly":
+        allowed0 = heap.region(sorted(spec["inplace"]))
+        for oid, path, a, meta in heap.views:
+            if oid not in allowed0:
+                own = owner_of(a)
+                try:
+                    a.flags.writeable = False
+                    own.flags.writeable = False
+                except Exception:
+                    pass
+        heap.views = [(oid, path, a, arr_meta(a)) for oid, path, a, meta in heap.views]
     C.reset_backends()
     buf = io.StringIO()
     with contextlib.redirect_stdout(buf), contextlib.redirect_stderr(buf):
@@ -1959,8 +2017,11 @@ def run_config(name, variant, dtype, seed):
     C.reset_backends()
     changed = heap.changed()
     allowed = heap.region(sorted(spec["inplace"]))
+    attempts = list(WRITE_LOG)
+    if variant == "readonly" and out[0] != "ok" and "read-only" in str(out[1]):
+        attempts.append("ndarray: " + str(out[1])[:120])
     return dict(outcome=out[0], detail=None if out[0] == "ok" else out[1], changed=changed, heap=heap, spec=spec,
-                allowed=allowed, args=args)
+                allowed=allowed, args=args, write_attempts=attempts)
 
 
 def case_literal(cid, r):
@@ -2075,6 +2136,21 @@ def run(chk):
         if cid % 211 == 0:
             chk.sample({"config": name, "variant": variant, "dtype": dtype, "outcome": r["outcome"], "heap_objects": n_objs,
                         "changed": meta[-1][5], "paths": [o["path"] for o in r["heap"].objs][:12]})
+        if r.get("write_attempts") and not predicate(r):
+            chk.hist("write_attempts_without_visible_change", name)
+            found = None
+            for v2, d2, s2 in [("fresh", dtype, seed), ("fresh", dtype, seed + 1), ("transposed", dtype, seed + 2), ("sliced", "float32", seed + 3)]:
+                r2 = run_config(name, v2, d2, s2)
+                if r2 is not None and predicate(r2):
+                    found = (v2, d2, s2, r2); break
+            if found:
+                v2, d2, s2, r2 = found
+                chk.finding(r2["spec"].get("ep") or f"tensorly:{name}", {"config": name, "variant": v2, "dtype": d2, "data_seed": s2,
+                                                                        "outcome": r2["outcome"], "detail": r2["detail"]}, predicate(r2), "C15_footprint")
+            else:
+                chk.disagreement("corr:C15 (write attempt through a protected argument: read-only array raised / protected list mutator called, "
+                                 "although no value changed; the model has no write command on caller-owned objects)",
+                                 {"config": name, "variant": variant, "dtype": dtype, "data_seed": seed, "outcome": r["outcome"], "write_attempts": r["write_attempts"][:5]})
         msg = predicate(r)
         if msg:
             chk.finding(r["spec"].get("ep") or f"tensorly:{name}", {"config": name, "variant": variant, "dtype": dtype, "data_seed": seed,
